@@ -14,7 +14,7 @@ Model of one call form = for every input row either
   row level : (list of output rows produced before failing, payload or NOFAIL)
 and `deliver` turns that into the expected observation for a policy.
 
-Exception payloads: the user exception Boom carries the offending value; '*' stands for "some exception raised
+Exception payloads: the user exception (class Boom, or any type of KINDS) carries the offending value; '*' stands for "some exception raised
 by a builtin converter" (int, format, method call), whose type and text are not compared.
 """
 
@@ -25,7 +25,44 @@ EXC = 'EXC'                # marker for "an exception object sits here"
 
 
 class Boom(Exception):
-    """The user function's own exception; args[0] is the value it choked on."""
+    """The user function's own exception class."""
+
+
+# The TYPE of the exception the user functions raise is an enumerated axis: the policy semantics must not depend
+# on it.  Whatever the type, the exception carries the marker ('BOOM', offending value) as args[0].
+KINDS = {
+    'Boom': Boom, 'IndexError': IndexError, 'KeyError': KeyError, 'LookupError': LookupError,
+    'TypeError': TypeError, 'ValueError': ValueError, 'AttributeError': AttributeError,
+    'StopIteration': StopIteration, 'RuntimeError': RuntimeError, 'ZeroDivisionError': ZeroDivisionError,
+}
+KIND_ORDER = ('Boom', 'IndexError', 'KeyError', 'LookupError', 'TypeError', 'ValueError', 'AttributeError',
+              'StopIteration', 'RuntimeError', 'ZeroDivisionError')
+_KIND = 'Boom'
+
+
+def set_kind(kind):
+    """Select the exception type raised by the user functions below (module state; one case at a time)."""
+    global _KIND
+    if kind not in KINDS:
+        raise ValueError(kind)
+    _KIND = kind
+
+
+def make_exc(v):
+    return KINDS[_KIND](('BOOM', v))
+
+
+def user_payload(e):
+    """(True, value) if e is an exception made by make_exc, else (False, None)."""
+    a = getattr(e, 'args', None)
+    if a and isinstance(a[0], tuple) and len(a[0]) == 2 and a[0][0] == 'BOOM':
+        return True, a[0][1]
+    return False, None
+
+
+# StopIteration raised while an ITERATOR's __next__ runs is, by the iterator protocol, the end of that iterator
+# and not a failure (tuple(map(f, row)) just stops); only generators turn it into RuntimeError (PEP 479).
+STOPITERATION_IS_EXHAUSTION = ('rowmap(f -> map object)', 'rowmap(f -> iterator object)')
 
 
 # ------------------------------------------------------------------------------------------------
@@ -53,6 +90,29 @@ def table(style, reps, n, badcells):
     return [HEADER] + [tuple(cell(style, reps, i, f, (i, f) in badcells) for f in (0, 1)) for i in range(n)]
 
 
+RAGGED_STATES = [(a, b) for a in ('ok', 'bad') for b in ('ok', 'bad', 'absent')] + ['empty']
+
+
+def ragged_table(reps, states):
+    """Header + rows that may be short: per row (a state, b state) with b possibly 'absent', or 'empty' = ()."""
+    rows = []
+    for i, st in enumerate(states):
+        if st == 'empty':
+            rows.append(())
+            continue
+        a, b = st
+        row = [cell('num', reps, i, 0, a == 'bad')]
+        if b != 'absent':
+            row.append(cell('num', reps, i, 1, b == 'bad'))
+        rows.append(tuple(row))
+    return [HEADER] + rows
+
+
+def g(row, i):
+    """A field that is absent from a short row reads as None (petl's Record: missing=None)."""
+    return row[i] if i < len(row) else None
+
+
 def many_cell(beh):
     """rowmapmany: the behaviour of the generator for a row is written in its b cell.
     ('ok', m) -> 'k<m>';  ('fail', k) -> '!<k>';  ('fail', (k, p)) -> '!<k><p>' (lazy-row forms: after k good
@@ -78,20 +138,50 @@ def is_bang(v):
 
 def conv(v):
     if is_bang(v):
-        raise Boom(v)
+        raise make_exc(v)
     return 'c:%s' % (v,)
 
 
 def conv2(v):
     if is_bang(v):
-        raise Boom(v)
+        raise make_exc(v)
     return 'd:%s' % (v,)
 
 
 def conv_row(v, row):
     if is_bang(v):
-        raise Boom(v)
+        raise make_exc(v)
     return '%s<%s>' % (v, '/'.join(str(x) for x in row))
+
+
+def convs(v):
+    """Strict converter: also chokes on the None an absent field reads as."""
+    if v is None or is_bang(v):
+        raise make_exc(v)
+    return 's:%s' % (v,)
+
+
+def _convs_row(v, b):
+    if is_bang(v) or b is None:
+        raise make_exc(v)
+    return '%s<%s>' % (v, b)
+
+
+def convs_row(v, row):
+    """pass_row converter that reads field b of the row (None when the row is short)."""
+    return _convs_row(v, row['b'])
+
+
+def recfun_sb(rec):
+    return convs(rec['b'])
+
+
+def recfun_sa(rec):
+    return convs(rec.a)
+
+
+def rowmapper_s(rec):
+    return [convs(rec['a']), convs(rec.b)]
 
 
 def rowfun_p(rec):
@@ -104,7 +194,7 @@ def rowfun_q(rec):
 
 def rowmapper(row):
     if is_bang(row[0]):
-        raise Boom(row[0])
+        raise make_exc(row[0])
     return [conv(row[0]), row[1], 'x']
 
 
@@ -122,14 +212,14 @@ def rowgenerator(row):
     for r in many_rows(row, k):
         yield r
     if b.startswith('!'):
-        raise Boom(row[0])
+        raise make_exc(row[0])
 
 
 def rowlister(row):
     """Not a generator: raises when CALLED, else returns a list."""
     b = row[1]
     if b.startswith('!'):
-        raise Boom(row[0])
+        raise make_exc(row[0])
     return many_rows(row, int(b[1:]))
 
 
@@ -174,7 +264,7 @@ def _lazy_cells(cells, failpos, payload):
     """Generator over cells that raises Boom(payload) instead of delivering the cell at failpos."""
     for p, c in enumerate(cells):
         if p == failpos:
-            raise Boom(payload)
+            raise make_exc(payload)
         yield c
 
 
@@ -222,10 +312,9 @@ def _lazy_many_model(r):
 def _try(fn, *args):
     try:
         return ('ok', fn(*args))
-    except Boom as e:
-        return ('fail', e.args[0])
-    except Exception:
-        return ('fail', ANY)
+    except Exception as e:
+        mine, v = user_payload(e)
+        return ('fail', v if mine else ANY)
 
 
 def _ok(v):
@@ -310,6 +399,31 @@ FORMS = {
     'rowmap(natural)':             dict(style='num', level='row', header=('x', 'y'),
                                         model=lambda r: (([[int(r[0]), r[1]]], NOFAIL) if not is_bang(r[0])
                                                          else ([], ANY))),
+    # ---- ragged tables: short rows; a mapping / converter that READS an absent field gets None and chokes on it.
+    # ---- Which cells fail must not depend on errorvalue.
+    'fieldmap{p: (a, f), q: (b, f), r: b} on short rows': dict(
+        style='ragged', level='cell', header=('p', 'q', 'r'),
+        model=lambda r: [_try(convs, g(r, 0)), _try(convs, g(r, 1)), _ok(g(r, 1))]),
+    'fieldmap{p: recfun(b), q: recfun(a)} on short rows': dict(
+        style='ragged', level='cell', header=('p', 'q'),
+        model=lambda r: [_try(convs, g(r, 1)), _try(convs, g(r, 0))]),
+    'fieldmap{p: "int({b})", q: "{a}"} on short rows': dict(
+        style='ragged', level='cell', header=('p', 'q'),
+        model=lambda r: [_try(int, g(r, 1)), _ok(g(r, 0))]),
+    'convert((a, b), f) on short rows': dict(          # absent cells are not converted, the row stays short
+        style='ragged', level='cell', header=HEADER,
+        model=lambda r: [_try(convs, v) for v in r]),
+    'convert(b, f) on short rows': dict(
+        style='ragged', level='cell', header=HEADER,
+        model=lambda r: [_ok(v) if i == 0 else _try(convs, v) for i, v in enumerate(r)]),
+    'convert((a, b), f reading row[b], pass_row) on short rows': dict(
+        style='ragged', level='cell', header=HEADER,
+        model=lambda r: [_try(_convs_row, v, g(r, 1)) for v in r]),
+    'rowmap(f reading both fields) on short rows': dict(
+        style='ragged', level='row', header=('x', 'y'),
+        model=lambda r: (lambda cs: (([[c[1] for c in cs]], NOFAIL) if all(c[0] == 'ok' for c in cs)
+                                     else ([], [c[1] for c in cs if c[0] == 'fail'][0])))(
+            [_try(convs, g(r, 0)), _try(convs, g(r, 1))])),
     # ---- rowmap whose mapper returns a lazy row (fails while petl materialises it)
     'rowmap(f -> generator expression)': dict(style='num', level='row', header=('x', 'y'),
                                               model=_lazy_row_model(conv)),
